@@ -38,5 +38,11 @@ CLaws == cs.kind = "c" =>
         /\ RowsSumToOne(cs.F, cs.T)
         /\ ColumnConserved(cs.F, cs.T, [l \in 1..(Len(cs.F) - 1) |-> 10 * l + ((l * l) % 7)])
         /\ ConstantKept(cs.F, cs.T, 5))
+\* the same top: the edges themselves; tops 60000 -> 18675 Pa: sigma' = (sigma + 1) / 2,
+\* i.e. (F + 8) / 16 for F in eighths; the order of the edges is kept
+ResigmaLaws == cs.kind = "c" =>
+  /\ ResigmaExact(cs.F, 8, 8, 5000, 5000) /\ Resigma(cs.F, 8, 8, 5000, 5000) = cs.F
+  /\ ResigmaExact(cs.F, 8, 16, 60000, 18675)
+  /\ Resigma(cs.F, 8, 16, 60000, 18675) = [k \in 1..Len(cs.F) |-> cs.F[k] + 8]
 EmitConstraint == IF IOEnv.PNC_EMIT = "1" THEN PrintT(ToJson(cs)) ELSE TRUE
 =================================================================================
